@@ -69,6 +69,9 @@ EXTRA = {
     "build.path-only": lambda Y, t: Y.URL.build(path=t, query_string=t, fragment=t),
     "build.scheme+path": lambda Y, t: Y.URL.build(scheme="mailto", path=t),
     "build.host+port": lambda Y, t: Y.URL.build(scheme="http", host=t, port=0, user=t),
+    # integer ports of every magnitude (derived from the text so that the case stays one value)
+    "build.port": lambda Y, t: Y.URL.build(scheme="http", host="h", user=t[:3] or None, port=(sum(map(ord, t)) * 7919) % 140000 - 5000),
+    "with_port.any": lambda Y, t: Y.URL("http://u@[::1]:81/p").with_port((sum(map(ord, t)) * 7919) % 140000 - 5000),
     "build.all": lambda Y, t: Y.URL.build(scheme="http", user=t, password=t, host="h", port=81, path="/" + t, query={t: [t, 1, 1.5]}, fragment=t),
     "with_path.noslash": lambda Y, t: Y.URL("http://h/x").with_path(t, keep_query=True, keep_fragment=True),
     "with_path.rel.noslash": lambda Y, t: Y.URL("x/y").with_path(t),
@@ -79,7 +82,7 @@ EXTRA = {
 ALL_ENTRIES = entry.NAMES + sorted(EXTRA)
 AUTO_STRINGIFY = {e.name for e in entry.E if e.kind in ("quote", "qstring", "other", "host") or e.name.startswith("join")} | \
     {"build.authority", "build.scheme", "with_scheme", "without_query_params", "without_query_params.multi", "with_name.rel", "with_suffix.raw", "joinpath.multi", "build.host+path", "build.authority+path",
-     "build.path-only", "build.scheme+path", "build.host+port", "build.all", "with_path.noslash", "with_path.rel.noslash", "div.empty-base", "div.rel-base"}
+     "build.path-only", "build.scheme+path", "build.host+port", "build.all", "build.port", "with_port.any", "with_path.noslash", "with_path.rel.noslash", "div.empty-base", "div.rel-base"}
 
 
 def _frame(tb, Y):
